@@ -357,27 +357,51 @@ pub fn cheap_finish(_h: &std::hash::DefaultHasher) -> u64 {
 pub fn cheap_write(_h: &mut std::hash::DefaultHasher, _b: &[u8]) {}
 pub fn cheap_write_str(_h: &mut std::hash::DefaultHasher, _s: &str) {}
 
+pub static mut INSERTED: usize = 0;
+pub static mut INSERTED_FIRST: u8 = 0;
+
+/// stands for HashSet<String>::insert inside the visitor (hashbrown's insert costs CBMC
+/// minutes and is not the subject): counts the elements the visitor adds
+pub fn hashset_insert_model<T, S, A: std::alloc::Allocator>(_s: &mut std::collections::HashSet<T, S, A>, v: T) -> bool {
+    unsafe {
+        if INSERTED == 0 {
+            // only instantiated with T = String
+            let st: &String = &*(&v as *const T as *const String);
+            INSERTED_FIRST = if st.len() == 1 { st.as_bytes()[0] } else { 0 };
+        }
+        INSERTED += 1;
+    }
+    std::mem::forget(v);
+    true
+}
+
 #[kani::proof]
 #[kani::unwind(12)]
 #[kani::stub(alloc::fmt::format, stubs::format)]
 #[kani::stub(std::hash::RandomState::new, stubs::fixed_random_state)]
-#[kani::stub(<std::hash::DefaultHasher as std::hash::Hasher>::finish, cheap_finish)]
-#[kani::stub(<std::hash::DefaultHasher as std::hash::Hasher>::write, cheap_write)]
-#[kani::stub(<std::hash::DefaultHasher as std::hash::Hasher>::write_str, cheap_write_str)]
+#[kani::stub(std::collections::HashSet::insert, hashset_insert_model)]
 fn c17_stringset_deserialize() {
     let sv = draw_set(&mut KSrc);
     // the wire form of a string set: an object mapping each element to an empty object
     let mut s = MapScript::empty();
     s.emptymap("a", sv.has_a);
     s.emptymap("b", sv.has_b);
-    unsafe { nde::PROTOCOL_BREACH = false };
+    unsafe {
+        nde::PROTOCOL_BREACH = false;
+        INSERTED = 0;
+    }
     let back = StringHashSet::deserialize(ObjDe(s));
     let breach = unsafe { nde::PROTOCOL_BREACH };
     kani::cover!(sv.has_a && sv.has_b, "two elements");
     assert!(!breach, "P:c17.stringset_visitor_consumes_each_value");
     match &back {
-        Ok(set) => {
-            assert!(set.len() == sv.has_a as usize + sv.has_b as usize, "P:c17.stringset_elements_roundtrip");
+        Ok(_) => {
+            let n = unsafe { INSERTED };
+            assert!(n == sv.has_a as usize + sv.has_b as usize, "P:c17.stringset_elements_roundtrip");
+            if n > 0 {
+                let first = unsafe { INSERTED_FIRST };
+                assert!(first == if sv.has_a { b'a' } else { b'b' }, "P:c17.stringset_elements_roundtrip");
+            }
         }
         Err(_) => assert!(false, "P:c17.stringset_deserializes_from_text_and_bytes"),
     }
